@@ -150,6 +150,40 @@ func (f *c17FS) inplace(b []byte, chunks, pauses []int) error {
 	return cerr
 }
 
+// inplaceKeepMtime rewrites the watched file in place with content of the same
+// length and then puts the previous modification time back (cp -p, rsync
+// --inplace -t) or, with fixed, sets a fixed epoch mtime (normalised timestamps).
+func (f *c17FS) inplaceKeepMtime(b []byte, trunc, fixed bool) error {
+	st, err := os.Stat(f.cfgPath)
+	if err != nil {
+		return err
+	}
+	flags := os.O_WRONLY
+	if trunc {
+		flags |= os.O_TRUNC
+	}
+	fh, err := os.OpenFile(f.cfgPath, flags, 0o644)
+	if err != nil {
+		return err
+	}
+	_, werr := fh.WriteAt(b, 0)
+	if werr == nil && int64(len(b)) != st.Size() {
+		werr = fh.Truncate(int64(len(b)))
+	}
+	cerr := fh.Close()
+	if werr != nil {
+		return werr
+	}
+	if cerr != nil {
+		return cerr
+	}
+	mt := st.ModTime()
+	if fixed {
+		mt = time.Unix(1_000_000_000, 0)
+	}
+	return os.Chtimes(f.cfgPath, mt, mt)
+}
+
 // renameOver writes a finished temporary file next to the real file and
 // renames it over the real file.
 func (f *c17FS) renameOver(b []byte) error {
